@@ -97,6 +97,11 @@ def generate(streams: core.Streams, tier: str) -> dict:
         if c["correlation"]["type"] in ("temporal", "temporal_ordered") and gen.chance(w, 0.4) and k == 2:
             c["correlation"]["condition"] = f"{docs[0]['name']} and not {docs[1]['name']}" if gen.chance(w, 0.5) else f"{docs[0]['name']} or {docs[1]['name']}"
             c["correlation"]["rules"] = [docs[0]["name"], docs[1]["name"]]
+        if gen.chance(w, 0.25):
+            c["correlation"]["type"] = gen.pick(w, ["value_percentile", "value_median"])
+            c["correlation"]["condition"] = {gen.pick(w, ["gte", "lt"]): w.randint(1, 9), "field": gen.pick(w, gen.FIELDS)}
+            if c["correlation"]["type"] == "value_percentile":
+                c["correlation"]["condition"]["percentile"] = gen.pick(w, [0, 50, 95, 99])
         _meta(w, c)
         c.pop("id", None)
         c["id"] = gen.UUIDS[8]
